@@ -49,4 +49,16 @@ PROPS = {
         "migration round trips, single-tryte substitutions at every position of sampled strings, lengths 80/82, lower case, non-ASCII, bad prefix/suffix, invalid groups",
    assumptions=["BLAKE2b is a function (arbitrary H in the theorems); iota.go guards/trinary helpers as modelled"],
    trusted_base=["Lean BLAKE2b oracle in the driver (validated against x/crypto by this run)"]),
+ "C03": P("C03",
+   rule="ops: bip39.enc, bip39.dec (per op the word list is selected with SetWordList), hash.sha256. Every entropy length 12..68 (valid and invalid) x {all-zero, all-one, random, 1..4 leading zero bytes, "
+        "1..4 trailing zero bytes, value 1} x {english, japanese}; all 2048 word indices of each list placed in every word position class; decode stream: valid sentences with a swapped/dropped/added/unknown/NFC-composed/"
+        "foreign-list word or two words exchanged",
+   assumptions=["SHA-256 is an arbitrary 32-byte-output function H in the theorems", "math/big operations modelled on Nat"],
+   trusted_base=["Lean SHA-256 oracle in the driver (validated against crypto/sha256 by hash.sha256 ops)", "committed official word lists (Iota/Spec/Bip39Words.lean), tied to the repository's lists and to the official digests"]),
+ "C06": P("C06", tie="Iota.Tie.Curl",
+   rule="ops: curl.hist = one whole history (A absorb with batch sizes 1..64 varying between calls and 0..3 blocks, lanes possibly longer than tritsCount; S squeeze of 0..2 blocks for 1..64 lanes; R reset; "
+        "C clone; X continue on the clone; rejected calls with bad batch size/length in the middle; absorb-after-squeeze panic as last op). The harness runs the real batched Curl and, independently, 64 iota.go single-lane "
+        "sponges; the driver runs the Lean model and 64 Lean spec sponges; the line compares outputs and both agreement flags",
+   assumptions=["Go arrays are copied by value (Clone/Reset)"],
+   trusted_base=["iota.go single-lane curl used as a second reference in the harness only"]),
 }
